@@ -443,77 +443,128 @@ def serve_loop(e3, nets_len, K=2):
 
 
 def syntax_table(e3):
-    """add_allowed_address accepts every documented syntax: plain IP address, or CIDR subnet"""
+    """add_allowed_address accepts every documented syntax, for both address families: a plain IP address is stored as exactly
+    that host's network (/32 for IPv4, /128 for IPv6), a CIDR subnet as that network; anything else is an error"""
+    from mirsmt import models_str as MS, models_std
     P = _e3.program(["metrics-exporter-prometheus"])
     CIDR, PLAIN, GARBAGE = 0, 1, 2
     cls = z3.Int("address_syntax")      # 0 = CIDR `addr/len`, 1 = plain IP address, 2 = neither
+    fam = z3.Int("address_family")      # 4 or 6
+    given = z3.Int("given_prefix_len")  # the prefix length written in a CIDR string
+    hostlen = z3.If(fam == 4, 32, 128)
+    TOK = ("tok", "addr", 0)
+    the_str = MS.sstr((TOK,))
+    err = lambda: Enum(1, {1: Agg({0: Opaque("AddrParseError")})}, "Result")
+
+    def shape(eng, ctx, v):
+        """(is the address token alone, literal suffix after the token or None)"""
+        w = MS._load(eng, ctx, v)
+        if isinstance(w, Agg) and 0 in w.f:          # String { vec } built by format!
+            w = w.f[0]
+        if not (isinstance(w, Native) and w.kind == "sstr"):
+            raise sym.Unsupported(f"address string expected, got {w}")
+        items = list(w.data)
+        if not items or items[0] != TOK:
+            raise sym.Unsupported("address string that does not start with the caller's text")
+        suffix = []
+        for c in items[1:]:
+            if not (z3.is_bv_value(c)):
+                raise sym.Unsupported("address string with a non-literal suffix")
+            suffix.append(chr(c.as_long()))
+        return "".join(suffix)
 
     def m_ipnet_from_str(eng, ctx, f, path, args, dty):
-        ok = cls == CIDR
-        return Fork([(ok, Enum(0, {0: Agg({0: Native("net", "cidr")})}, "Result")), (z3.Not(ok), Enum(1, {1: Agg({0: Opaque("AddrParseError")})}, "Result"))])
+        suf = shape(eng, ctx, args[0])
+        if suf == "":
+            ok = cls == CIDR
+            return Fork([(ok, Enum(0, {0: Agg({0: Native("net", ("cidr", given))})}, "Result")), (z3.Not(ok), err())])
+        if suf[0] == "/" and suf[1:].isdigit():
+            # text + "/NN": a network iff the text is a plain address and NN fits the family
+            n = int(suf[1:])
+            ok = z3.And(cls == PLAIN, n <= hostlen)
+            return Fork([(ok, Enum(0, {0: Agg({0: Native("net", ("suffixed", z3.IntVal(n)))})}, "Result")), (z3.Not(ok), err())])
+        return err() if True else None
 
     def m_ipaddr_from_str(eng, ctx, f, path, args, dty):
+        suf = shape(eng, ctx, args[0])
+        if suf != "":
+            return err()
         ok = cls == PLAIN
-        return Fork([(ok, Enum(0, {0: Agg({0: Native("ipaddr", "plain")})}, "Result")), (z3.Not(ok), Enum(1, {1: Agg({0: Opaque("AddrParseError")})}, "Result"))])
+        return Fork([(ok, Enum(0, {0: Agg({0: Native("ipaddr", "plain")})}, "Result")), (z3.Not(ok), err())])
 
     def m_from_ip(eng, ctx, f, path, args, dty):
         a = args[0]
         if isinstance(a, Native) and a.kind == "ipaddr":
-            return Native("net", "host")
+            return Native("net", ("host", hostlen))
         raise sym.Unsupported(f"IpNet::from({a})")
+
+    def m_contains(eng, ctx, f, path, args, dty):
+        suf = shape(eng, ctx, args[0])
+        pat = args[1]
+        if z3.is_bv_value(pat) and chr(pat.as_long()) == "/":
+            return z3.BoolVal(True) if "/" in suf else (cls == CIDR)
+        raise sym.Unsupported("str::contains with a pattern other than '/' on the address text")
 
     def m_get_or_insert(eng, ctx, f, path, args, dty):
         return Native("vecref", None)
 
     def m_push(eng, ctx, f, path, args, dty):
         v = args[1]
-        ctx.observe("push:" + (v.data if isinstance(v, Native) and v.kind == "net" else "other"))
+        if isinstance(v, Native) and v.kind == "net":
+            ctx.observe("push", kind=v.data[0], plen=v.data[1])
+        else:
+            ctx.observe("push", kind="other", plen=z3.IntVal(-1))
         return UNIT
     m = {r"^<IpNet as FromStr>::from_str$|^IpNet::from_str$": m_ipnet_from_str, r"^<IpAddr as FromStr>::from_str$|^IpAddr::from_str$": m_ipaddr_from_str,
-         r"^<IpNet as From>::from$|^IpNet::from$|^<IpAddr as Into>::into$": m_from_ip, r"as AsRef>::as_ref$": lambda *a: Opaque("str"),
+         r"^<IpNet as From>::from$|^IpNet::from$|^<IpAddr as Into>::into$": m_from_ip, r"as AsRef>::as_ref$": lambda eng, ctx, f, path, args, dty: args[0],
+         r"(^|::)str::(.*::)?contains$": m_contains,
          r"^Vec::new$": lambda *a: Native("vec", None), r"Option::get_or_insert(_with)?$": m_get_or_insert, r"^Vec::push$": m_push,
-         r"to_string$|ToString": lambda *a: Opaque("string"), r"BuildError::": lambda *a: Opaque("BuildError")}
+         r"^<(AddrParseError|PrefixLenError|.*Error) as ToString>::to_string$|Error as .*to_string$": lambda *a: Opaque("string"), r"BuildError::": lambda *a: Opaque("BuildError")}
+    m.update(MS.FMT)
     m.update(models.RESULT)
     m.update(models.BASE)
     eng = sym.Engine(P, models=m, opaque=TRACING)
     eng.merging = False
     b = P.find("PrometheusBuilder", "add_allowed_address")
     ctx0 = sym.Ctx(eng, 1)
+    ctx0.statics = {"address": the_str}
 
     def script():
-        r = yield ("call", b, [Agg({0: Opaque("cfg"), 1: Enum(0, {}, "Option")}), Opaque("address")])
+        r = yield ("call", b, [Agg({0: Opaque("cfg"), 1: Enum(0, {}, "Option")}), Ptr(("static", "address"))])
         return r
     leaves = eng.run_script(1, "add_allowed_address", script, ctx0=ctx0)
     e3.absorb(eng)
     done = [l for l in leaves if l.status == "done"]
     other = z3.Or(*[l.taken() for l in leaves if l.status != "done"] or [z3.BoolVal(False)])
 
-    def nobs(l, pred):
+    def npush(l, pred=lambda pl: z3.BoolVal(True)):
         t = z3.IntVal(0)
         for lab, e, pl in l.obs:
-            if pred(lab):
-                t = t + z3.If(e.guard, 1, 0)
+            if lab == "push":
+                t = t + z3.If(z3.And(e.guard, pred(pl)), 1, 0)
         return t
 
     def cond(pred):
         return z3.Or(*[z3.And(l.taken(), pred(l)) for l in done] or [z3.BoolVal(False)])
     is_ok = lambda l: eng.discr_is(l.ret.discr, 0)
-    only = lambda l, what: z3.And(nobs(l, lambda lab: lab == "push:" + what) == 1, nobs(l, lambda lab: lab.startswith("push:")) == 1)
-    rng = [cls >= 0, cls <= 2]
-    bounds = "add_allowed_address from entry to return, the address string classified as CIDR `addr/len` / plain IP address / neither (the documented syntaxes: 'an IP address or subnet')"
+    stored = lambda l, want: z3.And(npush(l) == 1, npush(l, lambda pl: z3.And(z3.BoolVal(pl["kind"] != "other"), pl["plen"] == want)) == 1)
+    rng = [cls >= 0, cls <= 2, z3.Or(fam == 4, fam == 6), given >= 0, given <= hostlen]
+    bounds = ("add_allowed_address from entry to return; the address string is the caller's text (classified as CIDR `addr/len` / plain IP address / neither, of family IPv4 or IPv6, "
+              "the written prefix length symbolic), possibly extended by the code with a literal suffix; IpNet / IpAddr parsing by their contracts")
 
     def on_model(ob, model):
         c = model.eval(cls, model_completion=True).as_long()
-        ob.sample = {"address_syntax": ["CIDR", "plain IP address", "neither"][c], "example": ["127.0.0.1/32", "127.0.0.1", "localhost"][c]}
-        replay_native(ob, "c18_syntax", ob.name.split(":")[1], {"cls": c})
+        fm = model.eval(fam, model_completion=True).as_long()
+        ob.sample = {"address_syntax": ["CIDR", "plain IP address", "neither"][c], "family": f"IPv{fm}"}
+        replay_native(ob, "c18_syntax", ob.name.split(":")[1], {"cls": c, "family": fm})
     specs = [dict(name="c18_syntax:witness", desc="some address is accepted", bounds=bounds, cons=rng + [cond(is_ok)], expect_unsat=False),
              dict(name="c18_syntax:returns", desc="add_allowed_address panics", bounds=bounds, cons=rng + [other], expect_unsat=True),
              dict(name="c18_syntax:subnet_accepted", desc="a subnet in CIDR notation is rejected or not stored as that network", bounds=bounds,
-                  cons=rng + [cls == CIDR, cond(lambda l: z3.Not(z3.And(is_ok(l), only(l, "cidr"))))], expect_unsat=True, on_model=on_model),
-             dict(name="c18_syntax:plain_address_accepted", desc="a plain IP address (documented as accepted) is rejected or not stored as that host's network", bounds=bounds,
-                  cons=rng + [cls == PLAIN, cond(lambda l: z3.Not(z3.And(is_ok(l), only(l, "host"))))], expect_unsat=True, on_model=on_model),
+                  cons=rng + [cls == CIDR, cond(lambda l: z3.Not(z3.And(is_ok(l), stored(l, given))))], expect_unsat=True, on_model=on_model),
+             dict(name="c18_syntax:plain_address_accepted", desc="a plain IP address (documented as accepted) is rejected or not stored as exactly that host's network (/32 for IPv4, /128 for IPv6)", bounds=bounds,
+                  cons=rng + [cls == PLAIN, cond(lambda l: z3.Not(z3.And(is_ok(l), stored(l, hostlen))))], expect_unsat=True, on_model=on_model),
              dict(name="c18_syntax:garbage_rejected", desc="a string that is neither is accepted or changes the allowlist", bounds=bounds,
-                  cons=rng + [cls == GARBAGE, cond(lambda l: z3.Or(is_ok(l), nobs(l, lambda lab: lab.startswith("push:")) != 0))], expect_unsat=True, on_model=on_model)]
+                  cons=rng + [cls == GARBAGE, cond(lambda l: z3.Or(is_ok(l), npush(l) != 0))], expect_unsat=True, on_model=on_model)]
     check.discharge_many(e3.res, specs, 60)
 
 
@@ -522,6 +573,8 @@ def run(tier, seed, t0):
     jobs = [(f"c18_allow_{'none' if n is None else 'n' + str(n)}", (lambda e, n=n: allow_decision(e, n))) for n in ([None, 1, 2, 3] if tier == "quick" else [None, 1, 2, 3, 4])]
     jobs += [(f"c18_loop_{'none' if n is None else 'n' + str(n)}", (lambda e, n=n: serve_loop(e, n))) for n in ([None, 2] if tier == "quick" else [None, 1, 2, 3])]
     for nm, fn in jobs + [("c18_response", response_table), ("c18_syntax", syntax_table)]:
+        if os.environ.get("VERIF_C18_ONLY") and os.environ["VERIF_C18_ONLY"] != nm:
+            continue
         try:
             fn(e3)
         except _e3.ENC_ERRORS as ex:
